@@ -24,13 +24,22 @@ PlainNumbers == {n \in Numbers : n.exp = "" /\ n.mant \in {"int", "dec"}}
 \* (single precision: a huge value swallows the small coordinates it is combined with, so huge
 \* numbers are used where the attribute stands alone - sizes and presentation values - and
 \* without exponent)
+SoloAttrs == {"solo:line:x1", "solo:line:y1", "solo:line:x2", "solo:line:y2",
+              "solo:rect:x", "solo:rect:y", "solo:rect:width", "solo:rect:height", "solo:rect:rx", "solo:rect:ry",
+              "solo:circle:cx", "solo:circle:cy", "solo:circle:r",
+              "solo:ellipse:cx", "solo:ellipse:cy", "solo:ellipse:rx", "solo:ellipse:ry",
+              "solo:text:x", "solo:text:y", "solo:use:x", "solo:use:y",
+              "solo:image:x", "solo:image:y", "solo:image:width", "solo:image:height"}
 NumCases == {x \in {[fam |-> "number", num |-> n, unit |-> u, attr |-> a] :
                 n \in (IF Tier = "quick" THEN {x \in Numbers : x.exp \in {"", "e", "e-"}} ELSE Numbers),
                 u \in (IF Tier = "quick" THEN {"", "px", "mm", "%", "em"} ELSE Units),
                 \* ("line-end-only": a line that gives only x2 / y2 - the start is at 0; "root-width": the only
                 \* dimension the author gives on the root; "use-x": the offset of an instance)
                 a \in {"rect-x", "rect-width", "circle-r", "line-x2", "stroke-width", "text-x", "stop-offset", "font-size",
-                       "line-end-only", "root-width", "use-x", "ellipse-cx", "ellipse-cy", "circle-cy", "rect-y", "line-y1"}} :
+                       "line-end-only", "root-width", "use-x", "ellipse-cx", "ellipse-cy", "circle-cy", "rect-y", "line-y1"}
+                      \* ("solo": a fully specified shape in which exactly ONE geometry attribute carries the length
+                      \* under test and all the others are plain numbers - every attribute of every basic shape in turn)
+                      \cup SoloAttrs} :
              x.num.mant = "huge" => x.attr \in {"rect-width", "stroke-width", "font-size", "stop-offset"} /\ x.num.exp = ""}
 
 \* points ::= coordinate-pair (comma-wsp coordinate-pair)*
